@@ -21,7 +21,7 @@ C_VALUE = ("int", 5, [])
 G_VALUE = ("list", 0, [7])
 UNARY = ["not", "neg", "ident", "len", "first", "attr", "isnone", "all_gt", "all_pos", "sum_star", "comp", "typeof"]
 NONE_ELEM = -9   # a list element that is None
-BINARY = ["add", "floordiv", "and", "or", "lt", "eq", "in"]
+BINARY = ["add", "floordiv", "and", "or", "lt", "eq", "in", "star_then", "pairlen"]
 TERNARY = ["ifexp", "lt2", "and3", "or3"]
 ARITY = {k: 0 for k in ("int", "none", "true", "false", "name")}
 ARITY.update({k: 1 for k in UNARY})
@@ -82,6 +82,15 @@ class Obj:
     def __repr__(self) -> str:
         return "Obj({})".format(self.v)
 
+    def __eq__(self, other: Any) -> bool:
+        # a strict value object: comparison with a foreign type is an error (as numpy-like / typed values do)
+        if not isinstance(other, Obj):
+            raise TypeError("Obj compared with {}".format(type(other).__name__))
+        return self.v == other.v
+
+    def __hash__(self) -> int:
+        return hash(("Obj", self.v))
+
 
 def py_value(v: dict, objs: Dict[int, Obj]) -> Any:
     t = v["t"]
@@ -129,7 +138,8 @@ def parse(expr: list, p: int = 0) -> Tuple[dict, int]:
     return node, q
 
 
-ATOMIC = ("int", "none", "true", "false", "name", "ident", "len", "first", "attr", "all_gt", "all_pos", "sum_star", "comp", "typeof")
+ATOMIC = ("int", "none", "true", "false", "name", "ident", "len", "first", "attr", "all_gt", "all_pos", "sum_star", "comp", "typeof",
+          "star_then", "pairlen")
 
 
 def render(node: dict, rec: bool = False) -> str:
@@ -170,7 +180,7 @@ def render(node: dict, rec: bool = False) -> str:
     elif k == "all_pos":
         s = "all(10 // e > 0 for e in " + sub(0) + " if e is not None if e > 0)"
     elif k == "sum_star":
-        s = "total(*" + sub(0) + ")"            # a starred argument
+        s = "digits(*" + sub(0) + ")"           # a starred argument of an order-sensitive function
     elif k == "comp":
         if rec:
             # (a recorder lambda inside the iterable would capture the comprehension's own x under PEP 709)
@@ -185,6 +195,10 @@ def render(node: dict, rec: bool = False) -> str:
         s = sub(0) + ".v"
     elif k == "isnone":
         s = sub(0) + " is None"
+    elif k == "star_then":
+        s = "digits(*{}, {})".format(sub(0), sub(1, False))      # a plain positional argument after a starred one
+    elif k == "pairlen":
+        s = "len([{}, {}])".format(sub(0, False), sub(1, False))  # a list display whose elements are never compared
     elif k in ("add", "floordiv", "and", "or", "lt", "eq", "in"):
         op = {"add": "+", "floordiv": "//", "and": "and", "or": "or", "lt": "<", "eq": "==", "in": "in"}[k]
         s = "{} {} {}".format(sub(0), op, sub(1))
@@ -268,8 +282,14 @@ def make_cases(exprs: List[list], rng: random.Random, envs_per_expr: int = 0) ->
 _SERIAL = itertools.count(1)
 
 
-def _total(*values: Any) -> Any:
-    return sum(values)
+_ENTER = object()     # marker in the recorder's log (compared by identity: values may have a strict __eq__)
+
+
+def _digits(*values: Any) -> Any:
+    acc = 0
+    for v in values:
+        acc = acc * 10 + v
+    return acc
 
 
 class ExprModule:
@@ -312,7 +332,7 @@ class ExprModule:
         src = "\n".join(lines) + "\n"
         self.source = src
         linecache.cache[self.filename] = (len(src), None, src.splitlines(True), self.filename)
-        ns = {"ident": self._ident, "R": self._rec, "total": _total, "__name__": "icv_expr"}
+        ns = {"ident": self._ident, "R": self._rec, "digits": _digits, "__name__": "icv_expr"}
         import warnings
         with warnings.catch_warnings():
             warnings.simplefilter("ignore")
@@ -324,7 +344,7 @@ class ExprModule:
         return v
 
     def _rec(self, pos: int, thunk: Any) -> Any:
-        self.rec_log.append((pos, "enter"))
+        self.rec_log.append((pos, _ENTER))
         v = thunk()
         self.rec_log.append((pos, v))
         return v
@@ -416,7 +436,7 @@ def check_cases(res: CheckResult, prop_clauses: Dict[str, set], cases: List[dict
                     cpy = ("ok", bool(val), val)
                 except Exception as exc:  # noqa
                     cpy = ("exc", False, exc)
-                evaluated = sorted({p for p, v in mod.rec_log if v == "enter"} if False else {p for p, _ in mod.rec_log})
+                evaluated = sorted({p for p, _ in mod.rec_log})
                 if spec_py["py"] != cpy[0] or (cpy[0] == "ok" and bool(spec_py["truthy"]) != cpy[1]) or \
                         sorted(spec_py["evaluated"]) != evaluated or \
                         (cpy[0] == "ok" and list(spec_py["v"]) != tla_value_of(cpy[2])):
@@ -509,7 +529,7 @@ def check_cases(res: CheckResult, prop_clauses: Dict[str, set], cases: List[dict
                     # The specification is conservative where a name is bound to None (the re-evaluator's "unknown"
                     # marker): a line it does not predict is still sound if CPython evaluated that very
                     # sub-expression to that very value.
-                    cpy_vals = {p_: v_ for p_, v_ in mod.rec_log if not (isinstance(v_, str) and v_ == "enter")}
+                    cpy_vals = {p_: v_ for p_, v_ in mod.rec_log if v_ is not _ENTER}
                     sound_extra = []
                     for k_ in extra:
                         for p_, t_ in tx.items():
@@ -557,7 +577,7 @@ def _kind_at(tree: dict, pos: int) -> str:
 
 
 def _completed(rec_log: list, pos: int) -> bool:
-    return any(p == pos and v != "enter" for p, v in rec_log)
+    return any(p == pos and v is not _ENTER for p, v in rec_log)
 
 
 def _viol(res: CheckResult, prop_clauses: Dict[str, set], clause: str, what: str, case: dict) -> None:
@@ -752,7 +772,7 @@ class LayoutModule:
         my_repr = reprlib.Repr()
         my_repr.maxlist = 50
         self.MyError = MyError
-        self.ns = {"ident": self._ident, "total": _total, "foreign": foreign, "run": run, "MyError": MyError, "MY_REPR": my_repr,
+        self.ns = {"ident": self._ident, "digits": _digits, "foreign": foreign, "run": run, "MyError": MyError, "MY_REPR": my_repr,
                    "__name__": "icv_layout", "definitely": "a description", "classy_error": MyError,
                    "default_of": (lambda v: v), "c": 5, "g": [7]}
         import warnings
